@@ -705,9 +705,9 @@ theorem finishMerge_cons {sf : Flags} {sk : CompKind} {scs : List (Key × Node)}
 def RecCons (rec : Node → Node → Except Err (Node × Bool)) : Prop :=
   ∀ a b r s, FlagsConsistent a = true → FlagsConsistent b = true → rec a b = .ok (r, s) → FlagsConsistent r = true
 
-theorem mergeStep_cons {rec : Node → Node → Except Err (Node × Bool)} (hrec : RecCons rec) {sf : Flags}
+theorem mergeStep_cons {exc : List Path} {rec : Node → Node → Except Err (Node × Bool)} (hrec : RecCons rec) {sf : Flags}
     {sk : CompKind} {acc acc' : List (Key × Node)} {kv : Key × Node} (hacc : allConsistent acc = true)
-    (hkv : FlagsConsistent kv.2 = true) (h : mergeStep rec sf sk acc kv = .ok acc') :
+    (hkv : FlagsConsistent kv.2 = true) (h : mergeStep rec sf sk exc acc kv = .ok acc') :
     allConsistent acc' = true := by
   have hle := kwLe_none sf sk
   unfold mergeStep at h
@@ -735,9 +735,9 @@ theorem mergeStep_cons {rec : Node → Node → Except Err (Node × Bool)} (hrec
             · exact removeChildE_cons hle hacc h
             · exact setChild_cons hle hnw hacc h
 
-theorem mergeLoop_cons {rec : Node → Node → Except Err (Node × Bool)} (hrec : RecCons rec) (sf : Flags)
+theorem mergeLoop_cons {exc : List Path} {rec : Node → Node → Except Err (Node × Bool)} (hrec : RecCons rec) (sf : Flags)
     (sk : CompKind) : ∀ (acc ocs acc' : List (Key × Node)), allConsistent acc = true → allConsistent ocs = true →
-    mergeLoop rec sf sk acc ocs = .ok acc' → allConsistent acc' = true
+    mergeLoop rec sf sk exc acc ocs = .ok acc' → allConsistent acc' = true
   | acc, [], acc', hacc, _, h => by simp only [mergeLoop] at h; cases h; exact hacc
   | acc, kv :: rest, acc', hacc, ho, h => by
     obtain ⟨k, v⟩ := kv
